@@ -334,6 +334,6 @@ impl Check for C04 {
     fn finalize(&self, m: &mut Merged, tier: Tier) {
         m.floor("scripts", m.c("scripts"), tier.pick(3_000, 200_000));
         m.floor("executions checked against the script", m.c("executions_checked"), tier.pick(20_000, 5_000_000));
-        m.floor("scripts of shipped designs judged (well-formed + faithful on executions)", m.c("corpus_scripts_judged"), tier.pick(40, 80));
+        m.floor("scripts of shipped designs judged (well-formed + faithful on executions)", m.c("corpus_scripts_judged"), tier.pick(40, 70));
     }
 }
